@@ -216,7 +216,11 @@ int cp_cmlhs_ver(const g1_t r, const g2_t s, const g1_t *sig, const g2_t *z,
 	gt_t e, u, v;
 	bn_t k, n;
 	size_t len, dlen = strlen(data);
-	uint8_t *buf = RLC_ALLOCA(uint8_t, 1 + g2_size_bin(s, 0) + dlen);
+	size_t zlen = 1;
+	for (size_t i = 0; i < slen; i++) {
+		zlen = RLC_MAX(zlen, (size_t)g2_size_bin(z[i], 0));
+	}
+	uint8_t *buf = RLC_ALLOCA(uint8_t, zlen + dlen + 1);
 	int result = 1;
 
 	g1_null(g1);
@@ -289,6 +293,7 @@ int cp_cmlhs_ver(const g1_t r, const g2_t s, const g1_t *sig, const g2_t *z,
 		}
 	}
 	RLC_CATCH_ANY {
+		result = 0;
 		RLC_THROW(ERR_CAUGHT);
 	}
 	RLC_FINALLY {
@@ -336,7 +341,11 @@ int cp_cmlhs_onv(const g1_t r, const g2_t s, const g1_t sig[], const g2_t z[],
 	gt_t e, u, v;
 	bn_t k, n;
 	size_t len, dlen = strlen(data);
-	uint8_t *buf = RLC_ALLOCA(uint8_t, 1 + g2_size_bin(s, 0) + dlen);
+	size_t zlen = 1;
+	for (size_t i = 0; i < slen; i++) {
+		zlen = RLC_MAX(zlen, (size_t)g2_size_bin(z[i], 0));
+	}
+	uint8_t *buf = RLC_ALLOCA(uint8_t, zlen + dlen + 1);
 	int result = 1;
 
 	g1_null(g1);
@@ -402,6 +411,7 @@ int cp_cmlhs_onv(const g1_t r, const g2_t s, const g1_t sig[], const g2_t z[],
 			result = 0;
 		}
 	} RLC_CATCH_ANY {
+		result = 0;
 		RLC_THROW(ERR_CAUGHT);
 	} RLC_FINALLY {
 		g1_free(g1);
